@@ -503,7 +503,12 @@ impl AnyBackend {
     fn quote_(&self) -> (r: Quote) ensures r == self.q { self.q }
 ''', "ident::AnyBackend", props=P)
     for i, (rel, fname, line, text) in enumerate(sites):
-        emit_site(u, i, rel, fname, line, text)
+        try:
+            emit_site(u, i, rel, fname, line, text)
+        except (LostAnchor, Unsupported) as e:
+            # this site leaves the rule set: only IT is undecided (the bounded search over identifier positions decides); the other sites and
+            # the rest of the unit are still verified
+            u.stubbed["raw-site:%s:%s@%d" % (rel, fname, line)] = {"reason": "%s: %s" % (type(e).__name__, e), "props": list(P), "fname": "raw_site_%d_%s" % (i, fname)}
     u.emit("}\n")
     u.site_count = len(sites)
     try:
